@@ -212,8 +212,19 @@ def check(ctx):
                 ok = sfarg is not None and ((isinstance(sfarg, ast.Name) and sfarg.id in f.params) or
                                             (isinstance(sfarg, ast.Attribute) and isinstance(sfarg.value, ast.Name) and f.pos_params
                                              and sfarg.value.id == f.pos_params[0] and f.cls is not None))
-                ctx.ob("C19.S2", f"{f.short}/Call-frame", ok, loc(f, c), "Call(...) receives its creator's frame parameter" if ok else
-                       "Call(...) is constructed without the frame handed to its creator", norm(c)[:100])
+                why_ = "Call(...) is constructed without the frame handed to its creator"
+                if ok and isinstance(sfarg, ast.Name):
+                    # ... the very object handed in: no rebinding of the parameter reaches the construction (an interned / rebuilt /
+                    # looked-up frame is another capture's chain)
+                    from ..cfg import CFG as _CFG, value_sources as _vs
+                    leaves = _vs(f, _CFG(f), sfarg.id, c, f.module)
+                    if leaves != {("param", sfarg.id)}:
+                        ok = False
+                        other = sorted(norm(l_[1])[:60] if l_[0] in ("expr", "elem") and hasattr(l_[1], "lineno") else str(l_[0]) for l_ in leaves if l_ != ("param", sfarg.id))
+                        why_ = (f"the frame parameter `{sfarg.id}` is rebound before the construction (value may come from {other}): the call can "
+                                f"carry another capture's chain instead of the one taken at the user's line")
+                ctx.ob("C19.S2", f"{f.short}/Call-frame", ok, loc(f, c), "Call(...) receives its creator's frame parameter, unmodified" if ok else
+                       why_, norm(c)[:100])
     ctx.floor("C19.S2", "Call constructions", n_ctor, 1)
     pcall = roles.call_ctor(m)
     # which frame the created calls carry: evaluated through the public methods (one capture, shared by every created call)
